@@ -106,9 +106,15 @@ func VC17_roundtrip() {
 			text += "counter: p:{" + open + "\n  " + a + ",\n  " + b + "\n}\n"
 		}
 		if vrt.Bool() {
-			d := int(vrt.U8() % 100)
-			r.Depth = d
-			text += "depth: " + string(rune('0'+d/10)) + string(rune('0'+d%10)) + "\n"
+			if vrt.Choose(4) == 0 {
+				// Depth is a 64-bit int: a value beyond 32 bits round-trips too
+				r.Depth = 1 << 32
+				text += "depth: 4294967296\n"
+			} else {
+				d := int(vrt.U8() % 100)
+				r.Depth = d
+				text += "depth: " + string(rune('0'+d/10)) + string(rune('0'+d%10)) + "\n"
+			}
 		}
 		if vrt.Bool() {
 			r.Version = "v1." + c17val(1)
